@@ -64,27 +64,39 @@ type batchScn struct {
 	cancel  cancelSpec // cancellation injection
 	// oracle groups
 	chkPositional, chkPerItem, chkLimit, chkStop, chkCancel, chkAction, chkWait bool
-	inFlow                                                                      bool          // run as the first node of a flow whose default edge leads to a witness
-	execDur                                                                     time.Duration // every exec takes this much virtual time
-	errItems                                                                    []int         // these items are handed out by prep as error Results (exec must still be called for them)
+	inFlow                                                                      bool                                                        // run as the first node of a flow whose default edge leads to a witness
+	execDur                                                                     time.Duration                                               // every exec takes this much virtual time
+	errItems                                                                    []int                                                       // these items are handed out by prep as error Results (exec must still be called for them)
+	runs                                                                        int                                                         // run the SAME batch node object this many times (default 1)
+	reconf                                                                      func(nb *flyt.BatchNodeBuilder, run int) (stop bool, c int) // builder-style reconfiguration before run #run (>=1)
+	withCause                                                                   bool                                                        // the context is cancelled with a cause that differs from its Err()
+	deadline                                                                    time.Duration                                               // >0: the context has a deadline this far (virtual time) after the run starts
+	fbEcho                                                                      bool                                                        // the fallback menu also offers "return the item itself together with the error"
 }
 
 // itemState: written by the thread processing the item; read by the main
 // thread in post (ordered by the pool's Wait) — plain fields.  Counters that
 // threads read concurrently are Cells.
 type itemState struct {
-	entries  core.Cell[int] // exec entries
-	fbCalls  core.Cell[int]
-	answers  []answer
-	fbAnswer *answer
-	threads  []int
-	startT   []int64
-	endT     []int64
-	badArg   string
+	entries         core.Cell[int] // exec entries
+	fbCalls         core.Cell[int]
+	answers         []answer
+	fbAnswer        *answer
+	threads         []int
+	startT          []int64
+	endT            []int64
+	badArg          string
+	settled         bool // the item's processing is over (success, or failure for good)
+	settledAtCancel bool
 }
 
 type BR struct {
 	sc                     *batchScn
+	stop                   bool // current error-handling mode of the node (may be reconfigured between runs)
+	c                      int  // current concurrency
+	runIdx                 int
+	stdCancel              context.CancelCauseFunc
+	h                      *brHolder
 	payload                []any
 	it                     []itemState
 	inflight               core.Cell[int]
@@ -141,7 +153,20 @@ func (b *BR) index(v any) int {
 	return -1
 }
 
-func itemErr(i, k int) error { return errTable[i][k] }
+var itemErrCache = map[[2]int]error{}
+
+func itemErr(i, k int) error {
+	if i < len(errTable) && k < len(errTable[i]) {
+		return errTable[i][k]
+	}
+	key := [2]int{i, k}
+	if e, ok := itemErrCache[key]; ok {
+		return e
+	}
+	e := fmt.Errorf("item%d-attempt%d-failed", i, k)
+	itemErrCache[key] = e
+	return e
+}
 
 var errTable = func() [][]error {
 	t := make([][]error, 12)
@@ -163,11 +188,32 @@ var fbErrTable = func() []error {
 
 func okVal(i int) any { return 1000 + i } // tag(item)
 
+// brHolder: the node object and its callbacks outlive a single run; the callbacks
+// report to whichever run is current.
+type brHolder struct {
+	cur   *BR
+	nb    *flyt.BatchNodeBuilder
+	store *flyt.SharedStore
+}
+
 func (sc *batchScn) scenario() Scenario {
 	var b *BR
 	body := func() {
-		b = &BR{sc: sc, payload: sc.payloads(), it: make([]itemState, sc.n), afterCancel: map[int]int{}}
-		b.run()
+		h := &brHolder{}
+		runs := sc.runs
+		if runs < 1 {
+			runs = 1
+		}
+		stop, c := sc.stop, sc.c
+		for r := 0; r < runs; r++ {
+			b = &BR{sc: sc, h: h, runIdx: r, payload: sc.payloads(), it: make([]itemState, sc.n), afterCancel: map[int]int{}}
+			h.cur = b
+			if r > 0 && sc.reconf != nil {
+				stop, c = sc.reconf(h.nb, r)
+			}
+			b.stop, b.c = stop, c
+			b.run()
+		}
 	}
 	check := func(x *core.Execution) (string, []string) {
 		var pr []string
@@ -209,8 +255,17 @@ func (b *BR) outcome() string {
 func (b *BR) run() {
 	sc := b.sc
 	var ctx context.Context = context.Background()
+	if sc.deadline > 0 {
+		c, _ := core.WithDeadline(context.Background(), core.Now().Add(sc.deadline))
+		ctx = c
+	}
 	if sc.cancel.kind != 0 {
-		c, _ := core.WithCancel(context.Background())
+		var parent context.Context = context.Background()
+		if sc.withCause {
+			// a standard cancel-with-cause context as parent: context.Cause(ctx) then differs from ctx.Err()
+			parent, b.stdCancel = context.WithCancelCause(context.Background())
+		}
+		c, _ := core.WithCancel(parent)
 		b.ctx = c
 		ctx = c
 		b.ctxErr = context.Canceled
@@ -218,10 +273,35 @@ func (b *BR) run() {
 			b.ctxErr = context.DeadlineExceeded
 		}
 		if sc.cancel.before {
-			c.CancelInline(b.ctxErr)
-			b.cancelled.Set(core.CurThread() + 1)
+			b.cancelNow()
 		}
 	}
+	if b.h.nb == nil {
+		b.h.nb, b.h.store = b.buildNode()
+	}
+	nb, store := b.h.nb, b.h.store
+	b.execute(ctx, nb, store)
+}
+
+// cancelNow cancels the run's context from the calling thread.
+func (b *BR) cancelNow() {
+	if b.stdCancel != nil {
+		b.stdCancel(errCustomCause)
+	}
+	b.ctx.CancelInline(b.ctxErr)
+	b.cancelled.Set(core.CurThread() + 1)
+	b.cancelAt = core.VNow()
+	for i := range b.it {
+		b.it[i].settledAtCancel = b.it[i].settled
+	}
+}
+
+var errCustomCause = errors.New("custom-cancel-cause")
+
+// buildNode constructs the batch node once; its callbacks report to the current run.
+func (b *BR) buildNode() (*flyt.BatchNodeBuilder, *flyt.SharedStore) {
+	sc := b.sc
+	h := b.h
 	nb := flyt.NewBatchNode().WithMaxRetries(sc.budget).WithBatchConcurrency(sc.c)
 	if sc.stop {
 		nb = nb.WithBatchErrorHandling(false)
@@ -232,7 +312,7 @@ func (b *BR) run() {
 	store := flyt.NewSharedStore()
 	prepItems := func() []flyt.Result {
 		r := make([]flyt.Result, sc.n)
-		for i, p := range b.payload {
+		for i, p := range h.cur.payload {
 			r[i] = flyt.NewResult(p)
 			if contains(sc.errItems, i) {
 				r[i] = flyt.NewErrorResult(prepItemErr[i])
@@ -259,28 +339,28 @@ func (b *BR) run() {
 			}
 			switch sc.shape {
 			case shAny:
-				return append([]any(nil), b.payload...), nil
+				return append([]any(nil), h.cur.payload...), nil
 			case shInts:
 				l := make([]int, sc.n)
-				for i, p := range b.payload {
+				for i, p := range h.cur.payload {
 					l[i] = p.(int)
 				}
 				return l, nil
 			case shStructs:
 				l := make([]itemT, sc.n)
-				for i, p := range b.payload {
+				for i, p := range h.cur.payload {
 					l[i] = p.(itemT)
 				}
 				return l, nil
 			case shSingle:
-				return b.payload[0], nil
+				return h.cur.payload[0], nil
 			}
 			return nil, nil
 		})
 	}
 	if sc.anyExec {
 		nb = nb.WithExecFuncAny(func(ctx context.Context, v any) (any, error) {
-			a := b.onExec(ctx, v, false)
+			a := h.cur.onExec(ctx, v, false)
 			return a.val, a.err
 		})
 	} else {
@@ -289,7 +369,7 @@ func (b *BR) run() {
 			if it.IsError() {
 				v = it.Error() // error items are identified by their error
 			}
-			a := b.onExec(ctx, v, it.IsError())
+			a := h.cur.onExec(ctx, v, it.IsError())
 			if a.err != nil {
 				return flyt.Result{}, a.err
 			}
@@ -301,14 +381,20 @@ func (b *BR) run() {
 	}
 	if sc.fb {
 		flyt.ZZSetFallback(nb, func(p any, err error) (any, error) {
-			return b.onFallback(p, err)
+			return h.cur.onFallback(p, err)
 		})
 	}
 	if !sc.noPost {
 		nb = nb.WithPostFunc(func(ctx context.Context, st *flyt.SharedStore, items, results []flyt.Result) (flyt.Action, error) {
-			return b.onPost(st == store, items, results)
+			return h.cur.onPost(st == store, items, results)
 		})
 	}
+	return nb, store
+}
+
+// execute performs one run of the node.
+func (b *BR) execute(ctx context.Context, nb *flyt.BatchNodeBuilder, store *flyt.SharedStore) {
+	sc := b.sc
 	if len(sc.park) > 0 {
 		// observer: once a terminal failure has been returned, wait until nothing
 		// else can run (the failure has been handled), then release the parked items
@@ -376,14 +462,14 @@ func (b *BR) onExec(ctx context.Context, v any, argIsErr bool) answer {
 	}
 	// ---- C08 upper bound
 	if sc.chkLimit {
-		lim := sc.c
+		lim := b.c
 		if lim <= 0 {
 			lim = 1
 		}
 		if in > lim {
-			core.Problem("%d item executions in flight with concurrency %d", in, sc.c)
+			core.Problem("%d item executions in flight with concurrency %d", in, b.c)
 		}
-		if sc.c == 0 && k == 0 {
+		if b.c == 0 && k == 0 {
 			for j := 0; j < i; j++ {
 				if b.it[j].entries.Get() == 0 {
 					core.Problem("sequential batch started item %d before item %d", i, j)
@@ -397,10 +483,10 @@ func (b *BR) onExec(ctx context.Context, v any, argIsErr bool) answer {
 		}
 	}
 	// ---- C09: nothing new on the worker that observed a failure; nothing new once it has been handled
-	if sc.chkStop && sc.stop {
+	if sc.chkStop && b.stop {
 		if fbid := b.failedBy.Get(); fbid != 0 {
-			if sc.c <= 1 {
-				core.Problem("stop-on-error: item %d attempt %d executed after an item had already failed (concurrency %d)", i, k, sc.c)
+			if b.c <= 1 {
+				core.Problem("stop-on-error: item %d attempt %d executed after an item had already failed (concurrency %d)", i, k, b.c)
 			} else if fbid == tid+1 {
 				core.Problem("stop-on-error: worker T%d started item %d after the item it processed had failed", tid, i)
 			} else if b.phase.Get() == 2 && k == 0 {
@@ -414,7 +500,7 @@ func (b *BR) onExec(ctx context.Context, v any, argIsErr bool) answer {
 		if sc.chkCancel {
 			if sc.cancel.before {
 				core.Problem("exec of item %d attempt %d entered although the context was cancelled before the run", i, k)
-			} else if sc.c == 0 {
+			} else if b.c == 0 {
 				core.Problem("sequential batch: exec of item %d attempt %d entered after the context was cancelled", i, k)
 			} else if c == tid+1 {
 				core.Problem("worker T%d, which cancelled the context itself, entered exec of item %d attempt %d afterwards", tid, i, k)
@@ -433,9 +519,7 @@ func (b *BR) onExec(ctx context.Context, v any, argIsErr bool) answer {
 		}
 		if fire {
 			core.Logf("cancel from inside exec item %d attempt %d", i, k)
-			b.ctx.CancelInline(b.ctxErr)
-			b.cancelled.Set(tid + 1)
-			b.cancelAt = core.VNow()
+			b.cancelNow()
 		}
 	}
 	if sc.yield {
@@ -463,8 +547,11 @@ func (b *BR) onExec(ctx context.Context, v any, argIsErr bool) answer {
 	st.endT = append(st.endT, core.VNow())
 	b.lastCbEnd = core.VNow()
 	core.Logf("exec item %d attempt %d -> val=%s err=%v", i, k, descVal(a.val), a.err)
+	if a.err == nil {
+		st.settled = true
+	}
 	// terminal failure of this item?
-	if sc.stop && b.failedBy.Get() == 0 && b.terminalFailure(i, a) && !sc.fb {
+	if b.stop && b.failedBy.Get() == 0 && b.terminalFailure(i, a) && !sc.fb {
 		b.failedBy.Set(tid + 1)
 		b.phase.Set(1)
 	}
@@ -515,10 +602,14 @@ func (b *BR) onFallback(p any, err error) (any, error) {
 		}
 	}
 	m := sc.fbMenu(i)
+	if sc.fbEcho {
+		// a fallback that hands back its input together with the error
+		m = append(append([]answer(nil), m...), answer{val: p, err: fbErrTable[i]})
+	}
 	a := m[core.Choose(len(m))]
 	st.fbAnswer = &a
 	b.lastCbEnd = core.VNow()
-	if sc.stop && a.err != nil && b.failedBy.Get() == 0 {
+	if b.stop && a.err != nil && b.failedBy.Get() == 0 {
 		b.failedBy.Set(core.CurThread() + 1)
 		b.phase.Set(1)
 	}
@@ -617,8 +708,12 @@ func (b *BR) checkSlots(results []flyt.Result) {
 				}
 			default:
 				if r.IsError() {
-					if b.cancelled.Get() == 0 {
+					if b.cancelled.Get() == 0 || sc.chkPositional {
+						// result i is the outcome of processing item i: an execution that returned a
+						// value keeps it, whether or not a cancellation arrived meanwhile
 						core.Problem("result %d is error %q but item %d succeeded with %s", i, r.Error(), i, descVal(val))
+					} else if st.settledAtCancel {
+						core.Problem("result %d is error %q but item %d had already succeeded with %s BEFORE the cancellation", i, r.Error(), i, descVal(val))
 					}
 				} else if !sameValue(r.Value(), val) {
 					core.Problem("result %d is %s, want the outcome of item %d: %s", i, descVal(r.Value()), i, descVal(val))
@@ -684,7 +779,7 @@ func (b *BR) finalChecks() {
 			core.Problem("batch post called %d times, want exactly once", b.postCalls)
 		}
 	}
-	if sc.chkPerItem && !sc.stop && !cancelled {
+	if sc.chkPerItem && !b.stop && !cancelled {
 		for i := range b.it {
 			if b.it[i].entries.Get() == 0 {
 				core.Problem("continue mode: item %d was never processed", i)
@@ -694,7 +789,7 @@ func (b *BR) finalChecks() {
 			}
 		}
 	}
-	if sc.chkStop && sc.stop && sc.c <= 1 {
+	if sc.chkStop && b.stop && b.c <= 1 {
 		// sequential / one worker: nothing after the first failing item
 		seen := false
 		for i := range b.it {
